@@ -40,6 +40,11 @@ type Script struct {
 	// CtxErr: a failing member fails with an error that wraps context.DeadlineExceeded (a timeout of
 	// its own, not the caller's cancellation).
 	CtxErr bool `json:"ctx_err,omitempty"`
+	// Background: the caller's context is one that can never be cancelled (context.Background with a
+	// value); only for schedules without caller cancellation and without members that wait for it
+	Background bool `json:"background,omitempty"`
+	// ReadAll: the returned reader is read to its end before it is closed
+	ReadAll bool `json:"read_all,omitempty"`
 	// Timed variant: instead of exact events, members answer after virtual delays.
 	Delay  [2]int `json:"delay,omitempty"`  // ms
 	Cancel int    `json:"cancel,omitempty"` // ms; 0 = never
@@ -176,6 +181,10 @@ func run(s Script, v *vt.V) {
 		u := ociunify.New(ms[0], ms[1], &ociunify.Options{ReadPolicy: ociunify.ReadConcurrent})
 		ctx, cancel := context.WithCancel(context.Background())
 		defer cancel()
+		if s.Background && !contains(s.Events, "X") && s.Cancel == 0 && s.Mode[0] != "ctx" && s.Mode[1] != "ctx" {
+			type k struct{}
+			ctx = context.WithValue(context.Background(), k{}, "never done")
+		}
 		var out outcome
 		isReader := !strings.HasPrefix(s.Entry, "Resolve")
 		go func() {
@@ -239,8 +248,11 @@ func run(s Script, v *vt.V) {
 		closedByTest := false
 		closeReader := func() {
 			if out.done && out.rd != nil && !closedByTest {
-				// the chosen member's context must still be live while the reader is open
-				// (unless the caller itself has cancelled)
+				if s.ReadAll {
+					io.Copy(io.Discard, out.rd)
+				}
+				// the chosen member's context must still be live while the reader is open - also once
+				// it has been read to its end - (unless the caller itself has cancelled)
 				if out.member >= 0 && !cancelled && ms[out.member].ctx.Err() != nil {
 					fail("context-dead-early", "the context given to the chosen member %d is already cancelled while the returned reader is open", out.member)
 				}
@@ -541,18 +553,35 @@ func TestPropSchedules(t *testing.T) {
 	prop = &vt.Prop[Script]{
 		ID:   "C16",
 		Name: "UnifyConcurrentSchedules",
-		Rule: "complete enumeration, executed in synctest bubbles with every event separated by synctest.Wait: 5 read entry points x 2x2 member outcomes x both completion orders x caller cancellation {none, before any answer, between the answers, after both, after the reader was closed} x returned reader closed before / after the loser answers x reader Close succeeding / failing, plus members that answer only once their context is cancelled (one or both); oracle = the call returns exactly when the ordered events decide it, with the first successful answer (error only if both failed or the caller cancelled first; when a cancellation-driven answer coincides with the cancellation either is accepted); the chosen member's context is live until the returned reader is closed and cancelled afterwards (resolve-style: cancelled on return); every reader of the member not chosen is closed; both members' contexts end cancelled; the number of goroutines in the bubble is back at its baseline; non-trivial = some member succeeds or the caller cancels; distinct = the schedule",
+		Rule: "complete enumeration, executed in synctest bubbles with every event separated by synctest.Wait: 5 read entry points x 2x2 member outcomes x both completion orders x caller cancellation {none, before any answer, between the answers, after both, after the reader was closed} x returned reader closed before / after the loser answers x reader Close succeeding / failing x the returned reader read to its end before it is closed or not, schedules without caller cancellation also under a caller context that can never be cancelled, plus members that answer only once their context is cancelled (one or both); oracle = the call returns exactly when the ordered events decide it, with the first successful answer (error only if both failed or the caller cancelled first; when a cancellation-driven answer coincides with the cancellation either is accepted); the chosen member's context is live until the returned reader is closed and cancelled afterwards (resolve-style: cancelled on return); every reader of the member not chosen is closed; both members' contexts end cancelled; the number of goroutines in the bubble is back at its baseline; non-trivial = some member succeeds or the caller cancels; distinct = the schedule",
 		Run:  run,
 	}
 	shard, shards := vt.Shard()
 	vt.Enumerate(t, prop, true, func(yield func(Script) bool) {
 		k := 0
-		enumerate(func(s Script) bool {
-			k++
-			if k%shards != shard {
-				return true
+		enumerate(func(s0 Script) bool {
+			variants := []Script{s0}
+			isReader := !strings.HasPrefix(s0.Entry, "Resolve")
+			if isReader {
+				s1 := s0
+				s1.ReadAll = true
+				variants = append(variants, s1)
 			}
-			return yield(s)
+			if !contains(s0.Events, "X") && s0.Mode[0] == "gate" && s0.Mode[1] == "gate" {
+				s2 := s0
+				s2.Background, s2.ReadAll = true, isReader
+				variants = append(variants, s2)
+			}
+			for _, s := range variants {
+				k++
+				if k%shards != shard {
+					continue
+				}
+				if !yield(s) {
+					return false
+				}
+			}
+			return true
 		})
 	})
 }
